@@ -23,6 +23,23 @@
 
 #include "cbor.h"
 
+/* MemorySanitizer interface (clang "msan" flavour only): poison outputs before a call, test them afterwards */
+#if defined(__has_feature)
+#if __has_feature(memory_sanitizer)
+#include <sanitizer/msan_interface.h>
+#define VH_MSAN 1
+#endif
+#endif
+#ifdef VH_MSAN
+#define VH_POISON(p, n) __msan_poison((p), (n))
+#define VH_UNPOISON(p, n) __msan_unpoison((p), (n))
+#define VH_UNINIT_AT(p, n) ((long)__msan_test_shadow((p), (n))) /* offset of the first uninitialised byte, -1 if none */
+#else
+#define VH_POISON(p, n) ((void)0)
+#define VH_UNPOISON(p, n) ((void)0)
+#define VH_UNINIT_AT(p, n) ((long)-1)
+#endif
+
 /* ------------------------------------------------------------------ options */
 struct vh_opts {
   const char* driver;
